@@ -79,12 +79,13 @@ def gen_file(rng, boundary=False):
         orders = [rng.rint(1, 3) for _ in range(nd)]
         long_d = rng.below(nd)
         for d in range(nd):
-            ax = rng.rint(300, 900) if d == long_d else rng.rint(2, 6)
+            ax = rng.rint(300, 900) if d == long_d else max(rng.rint(2, 6), orders[d] + 1)
             nk.append(ax + orders[d] + 1)
         prefer = [d for d in range(nd) if d != long_d]
     for d in range(nd if not nk else 0):
         maxax = min(24, max(1, int(round(budget ** (1.0 / nd)))))   # convolve costs naxis^2 * n blossoms, each exponential in order+n
         ax = rng.rint(1, max(1, maxax)) if not rng.chance(0.15) else 1
+        ax = max(ax, orders[d] + 1)       # the reader refuses fewer than 2*order+2 knots (fix 46293ba)
         nk.append(ax + orders[d] + 1)
     if boundary:
         naux = rng.choice([20, 35, 50, 50, 50])
